@@ -193,9 +193,11 @@ Fixpoint fork_go (legacy i0 bufne : bool) (idx dim : N) (ps : list part)
           | Some alen =>
               if alen =? 0 then
                 (* an empty inner collection: identified by the enclosing
-                   indices (before the repair: an empty id whenever idx <> 0,
-                   i.e. the stage directory itself, shared by all such forks) *)
-                if idx =? 0 then Some (true, []) else Some (false, write_fork_index dim idx)
+                   indices (before the repairs: an empty id whenever idx <> 0,
+                   i.e. the stage directory itself, shared by all such forks;
+                   then the default id whenever idx = 0, even behind an
+                   already written enclosing index, shared by all of those) *)
+                if (idx =? 0) && negb bufne then Some (true, []) else Some (false, write_fork_index dim idx)
               else if negb (allow p) then None
               else
                 match p_id p with
